@@ -899,7 +899,7 @@ Proof.
   - destruct (size <? 0); [exact R|]. destruct (size =? 0); [exact R|]. cbn [fst]. rsame s R.
   - rsame s R.
   - destruct (venum s e); [cbn [fst]; rsame s R|exact R].
-  - destruct (count <? 0); [exact R|]. destruct (count =? 0); [exact R|]. destruct (gsize <? 0); [exact R|]. destruct (gsize =? 0); [exact R|].
+  - destruct (count <? 0); [exact R|]. destruct (count =? 0); [exact R|]. destruct (gsize <? 0); [exact R|]. destruct (gsize =? 0); [exact R|]. destruct (2 ^ 63 - 65 <? gsize); [exact R|].
     cbn [fst]. rsame s R.
   - destruct (vmsg s m && vsig s x); [apply invr_append; assumption|exact R].
   - destruct (vmsg s m && vsig s x); [apply invr_insert; assumption|exact R].
@@ -955,6 +955,7 @@ Definition enum_resize_ok_f (s : state) (e : nat) (a : Z) : Prop :=
 
 Definition ok_op_f (s : state) (o : op) : Prop :=
   match o with
+  | ONewMsg n => msg_size_ok n                                                        (* constructor overflow *)
   | OAppend m x | OInsert m x _ => ~ attached s x                                        (* D20 *)
   | OMuxInsert u x _ _ =>
       ~ attached s x \/ (memb x (usigs s u) = true /\ forall L, In x (lay s L) -> exists g, L = LG u g)   (* D20 *)
